@@ -60,6 +60,12 @@ pub enum Act {
     BehClose { p: u8, c: Option<usize> },
     MuxFail { c: usize },
     Drain,
+    /// allow/block-list change: op 0 = forbid peer p (block / disallow), 1 = permit again
+    List { op: u8, p: u8 },
+    /// field `f` of a composed behaviour notifies the handler of connection `c`
+    Notify { f: u8, c: usize },
+    /// dial P1 with explicit addresses extended through the behaviour(s)
+    DialExt,
 }
 
 #[derive(Clone, Copy, Debug, PartialEq, Eq, Serialize, Deserialize)]
@@ -68,6 +74,12 @@ pub enum Which {
     C02,
     C05,
     C06,
+    C52,
+    /// block list
+    C53,
+    /// allow list
+    C53A,
+    C58,
 }
 
 #[derive(Clone, Debug, Serialize, Deserialize)]
@@ -82,6 +94,9 @@ pub struct LifeCfg {
     /// start from a non-initial state: this many connections to P1 are already established
     #[serde(default)]
     pub pre_established: u8,
+    /// subject-specific variant (limit set, denying field, ...)
+    #[serde(default)]
+    pub variant: u8,
 }
 
 #[derive(Clone, Debug, Default, Serialize)]
@@ -107,13 +122,36 @@ struct Conn {
     accepted: bool,
 }
 
+/// A behaviour that can be put under the lifecycle exploration: it contains a probe (through
+/// which the harness emits commands and observes callbacks) and is built from the configuration.
+pub trait Subject: libp2p_swarm::NetworkBehaviour + HasProbe + Sized + 'static
+where
+    Self::ToSwarm: std::fmt::Debug,
+{
+    fn make(log: Log, cfg: &LifeCfg) -> Self;
+    /// subject-specific environment action (allow / block list changes)
+    fn extra(&mut self, _op: u8, _p: u8) {}
+    /// number of probe fields (for composition oracles)
+    fn fields() -> u8 {
+        1
+    }
+}
+impl Subject for Probe {
+    fn make(log: Log, cfg: &LifeCfg) -> Self {
+        Probe::new(0, log, cfg.deny)
+    }
+}
+
 fn is_term(s: &str) -> bool {
     s == "Est" || s.starts_with("OutErr") || s.starts_with("InErr")
 }
 
-pub struct Sys {
-    cfg: LifeCfg,
-    sys: SwarmSys<Probe>,
+pub struct Sys<B: Subject>
+where
+    B::ToSwarm: std::fmt::Debug,
+{
+    pub cfg: LifeCfg,
+    pub sys: SwarmSys<B>,
     conns: Vec<Conn>,
     sw_seq: Vec<(String, usize)>,
     fs_seq: Vec<(String, usize)>,
@@ -127,20 +165,32 @@ pub struct Sys {
     pending_out_pos: Vec<(usize, usize)>,
     pub horizon_hits: u64,
     mismatch_resolved: bool,
+    /// C53: peers currently forbidden (blocked / not allowed) in the reference
+    forbidden: std::collections::BTreeSet<u8>,
+    forbid_count: u32,
+    /// C58: notifications sent: (n, field, conn)
+    notified: Vec<(u32, u8, usize)>,
+    notify_seq: u32,
+    /// full log kept for the composition oracle
+    full_log: Vec<LogEv>,
+    limit_hit: bool,
 }
 
 const HORIZON: u64 = 2000;
 
-impl Sys {
+impl<B: Subject> Sys<B>
+where
+    B::ToSwarm: std::fmt::Debug,
+{
     pub fn new(cfg: LifeCfg) -> Self {
         // process-global state of the subject: restart it for every execution
         ConnectionId::verif_reset_allocator(1);
         libp2p_swarm::verif_delay::reset_registry();
         let log = Arc::new(Mutex::new(Vec::new()));
-        let probe = Probe::new(0, log.clone(), cfg.deny);
+        let probe = B::make(log.clone(), &cfg);
         let scfg = SysCfg { exec: if cfg.local_exec { Exec::Local } else { Exec::Harness }, explore_schedule: cfg.explore_schedule, ..Default::default() };
         let sys = SwarmSys::new(probe, log, scfg);
-        let mut s = Sys { cfg, sys, conns: vec![], sw_seq: vec![], fs_seq: vec![], listener_up: false, drained: false, violation: None, att_owner: vec![], pending_in_cid: Default::default(), pending_out_pos: vec![], horizon_hits: 0, mismatch_resolved: false };
+        let mut s = Sys { cfg, sys, conns: vec![], sw_seq: vec![], fs_seq: vec![], listener_up: false, drained: false, violation: None, att_owner: vec![], pending_in_cid: Default::default(), pending_out_pos: vec![], horizon_hits: 0, mismatch_resolved: false, forbidden: Default::default(), forbid_count: 0, notified: vec![], notify_seq: 0, full_log: vec![], limit_hit: false };
         s.ensure_listener();
         let sched = std::mem::replace(&mut s.sys.explore_schedule, false);
         for n in 0..s.cfg.pre_established {
@@ -242,12 +292,40 @@ impl Sys {
         let which = self.cfg.which;
         // ---- behaviour log (FromSwarm side)
         for (lpos, e) in self.sys.take_log() {
+            if which == Which::C58 {
+                self.full_log.push(e.clone());
+            }
+            if matches!(which, Which::C53 | Which::C53A) {
+                // the list behaviour is asked before the probe: if the probe is asked at all for
+                // a forbidden peer, the list let it through
+                let asked = match &e {
+                    LogEv::EstIn { peer: p, .. } | LogEv::EstOut { peer: p, .. } => pidx(p),
+                    LogEv::PendingOut { peer: Some(p), .. } => pidx(p),
+                    _ => None,
+                };
+                if let Some(p) = asked {
+                    if self.forbidden.contains(&p) {
+                        self.violation.get_or_insert(format!("accepted-while-forbidden :: the list let a connection decision for forbidden peer P{p} through ({})", match &e { LogEv::PendingOut{..} => "pending outbound", LogEv::EstIn{..} => "established inbound", _ => "established outbound" }));
+                    }
+                }
+            }
+            // lifecycle FromSwarm events are folded from field 0 only (composed behaviours log one
+            // entry per field; their agreement is C58's forwarding oracle)
+            if matches!(&e, LogEv::Established { f, .. } | LogEv::Closed { f, .. } | LogEv::DialFailure { f, .. } | LogEv::ListenFailure { f, .. } if *f != 0) {
+                continue;
+            }
             match e {
-                LogEv::PendingIn { cid, denied, .. } => {
+                LogEv::PendingIn { cid, denied, f } => {
+                    let known = self.sys.cids.contains(&cid);
                     let i = self.conn(cid);
                     self.conns[i].out = false;
                     self.conns[i].denied |= denied;
-                    // the inbound attempt created by the Incoming action belongs to this id
+                    let _ = f;
+                    // the inbound attempt created by the Incoming action belongs to this id (the
+                    // first callback for a new id claims it)
+                    if known {
+                        continue;
+                    }
                     if let Some(k) = self.pending_in_cid.pop_front() {
                         while self.att_owner.len() <= k {
                             self.att_owner.push(None);
@@ -365,7 +443,19 @@ impl Sys {
                     self.sw_seq.push(("Err".into(), i));
                 }
                 Ev::IncomingError { cid, error, .. } => {
+                    let known = self.sys.cids.contains(&cid);
                     let i = self.conn(cid);
+                    if !known {
+                        // an inbound id no behaviour callback was logged for (denied by a field
+                        // that precedes the probe): it still owns the oldest unclaimed attempt
+                        if let Some(k) = self.pending_in_cid.pop_front() {
+                            while self.att_owner.len() <= k {
+                                self.att_owner.push(None);
+                            }
+                            self.att_owner[k] = Some(i);
+                            self.conns[i].attempts.push(k);
+                        }
+                    }
                     self.conns[i].sw.push(format!("InErr({error})"));
                     self.sw_seq.push(("Err".into(), i));
                 }
@@ -537,7 +627,10 @@ impl Sys {
     }
 }
 
-impl System for Sys {
+impl<B: Subject> System for Sys<B>
+where
+    B::ToSwarm: std::fmt::Debug,
+{
     type Action = Act;
 
     fn actions(&self) -> Vec<Act> {
@@ -546,7 +639,7 @@ impl System for Sys {
         }
         let mut v = Vec::new();
         let red = self.cfg.reduced;
-        if self.conns.len() < self.cfg.max_conns {
+        if self.conns.len() < self.cfg.max_conns % 10 {
             for p in [1u8, 2] {
                 if red && p == 2 {
                     continue;
@@ -599,6 +692,30 @@ impl System for Sys {
                 }
             }
         }
+        match self.cfg.which {
+            Which::C53 | Which::C53A => {
+                for p in [1u8, 2] {
+                    if self.forbidden.contains(&p) {
+                        v.push(Act::List { op: 1, p });
+                    } else if self.forbid_count < 2 {
+                        v.push(Act::List { op: 0, p });
+                    }
+                }
+            }
+            Which::C58 => {
+                if self.notified.len() < 2 {
+                    for &c in &live {
+                        for f in 0..B::fields() {
+                            v.push(Act::Notify { f, c });
+                        }
+                    }
+                }
+                if self.conns.len() < self.cfg.max_conns % 10 {
+                    v.push(Act::DialExt);
+                }
+            }
+            _ => {}
+        }
         if !self.conns.is_empty() {
             v.push(Act::Drain);
         }
@@ -630,7 +747,10 @@ impl System for Sys {
         let info = self.sys.swarm.network_info();
         let cc = info.connection_counters();
         format!(
-            "{}|{:?}|{:?}|{}|{}|{:?}|{:?}",
+            "{:?}|{:?}|{}|{}|{:?}|{:?}|{}|{}|{:?}|{:?}",
+            self.forbidden,
+            self.notified,
+            self.forbid_count,
             serde_json::to_string(&self.conns).unwrap(),
             self.sw_seq,
             att,
@@ -648,17 +768,23 @@ impl System for Sys {
             Which::C02 => self.conns.iter().any(|c| self.pending(c)) || !self.live().is_empty(),
             Which::C05 => self.mismatch_resolved,
             Which::C06 => self.conns.iter().any(|c| c.denied),
+            Which::C52 => self.limit_hit,
+            Which::C53 | Which::C53A => !self.forbidden.is_empty() || self.forbid_count > 0,
+            Which::C58 => !self.notified.is_empty() || self.conns.iter().any(|c| c.denied) || !self.full_log.is_empty(),
         }
     }
 }
 
-impl Sys {
+impl<B: Subject> Sys<B>
+where
+    B::ToSwarm: std::fmt::Debug,
+{
     /// Is the action meaningful in the current state (its indices exist)? Used when the
     /// schedule exploration applies an action before the system went quiescent.
     pub fn applicable(&self, act: &Act) -> bool {
         match act {
             Act::Ok { k, .. } | Act::Fail { k } => self.sys.ctl.lock().unwrap().attempts.get(*k).map(|a| a.open()).unwrap_or(false),
-            Act::Close { c } | Act::MuxFail { c } | Act::BehClose { c: Some(c), .. } => self.live().contains(c),
+            Act::Close { c } | Act::MuxFail { c } | Act::BehClose { c: Some(c), .. } | Act::Notify { c, .. } => self.live().contains(c),
             _ => true,
         }
     }
@@ -692,7 +818,7 @@ impl Sys {
                 self.conns[i].out = true;
                 self.conns[i].expected = Some(*p);
                 self.conns[i].via_behaviour = true;
-                self.sys.swarm.behaviour_mut().push(ToSwarm::Dial { opts });
+                self.sys.swarm.behaviour_mut().probe().push(ToSwarm::Dial { opts });
             }
             Act::Incoming => {
                 let k = {
@@ -738,12 +864,53 @@ impl Sys {
                     None => CloseConnection::All,
                     Some(c) => CloseConnection::One(self.sys.cids[*c]),
                 };
-                self.sys.swarm.behaviour_mut().push(ToSwarm::CloseConnection { peer_id: peer(*p), connection });
+                self.sys.swarm.behaviour_mut().probe().push(ToSwarm::CloseConnection { peer_id: peer(*p), connection });
             }
             Act::MuxFail { c } => {
                 if let Some(m) = self.mux_of(*c) {
                     m.lock().unwrap().fail = true;
                     mux_wake(&m);
+                }
+            }
+            Act::List { op, p } => {
+                if *op == 0 {
+                    self.forbidden.insert(*p);
+                    self.forbid_count += 1;
+                } else {
+                    self.forbidden.remove(p);
+                }
+                self.sys.swarm.behaviour_mut().extra(*op, *p);
+            }
+            Act::Notify { f, c } => {
+                self.notify_seq += 1;
+                let n = 100 * (*f as u32) + self.notify_seq;
+                self.notified.push((n, *f, *c));
+                let cid = self.sys.cids[*c];
+                let peer_id = peer(self.conns[*c].peer.unwrap_or(1));
+                self.sys.swarm.behaviour_mut().probe_n(*f).push(ToSwarm::NotifyHandler { peer_id, handler: libp2p_swarm::NotifyHandler::One(cid), event: n });
+            }
+            Act::DialExt => {
+                let opts = DialOpts::peer_id(peer(1)).addresses(vec![a(10)]).condition(PeerCondition::Always).extend_addresses_through_behaviour().build();
+                let i = self.conn(opts.connection_id());
+                self.conns[i].out = true;
+                self.conns[i].expected = Some(1);
+                let before = self.sys.ctl.lock().unwrap().dial_calls.len();
+                match self.sys.swarm.dial(opts) {
+                    Err(e) => self.conns[i].sync_err = Some(dial_err_class(&e)),
+                    Ok(()) => {
+                        // pending-dial addresses = explicit ++ concatenation of the fields' lists
+                        let calls: Vec<String> = self.sys.ctl.lock().unwrap().dial_calls[before..].iter().map(|c| aname(&c.0)).collect();
+                        let mut want = vec![format!("A10/p2p/P1")];
+                        for f in 0..B::fields() {
+                            want.push(format!("A{}/p2p/P1", 60 + f as u64));
+                        }
+                        let (mut g, mut w) = (calls.clone(), want.clone());
+                        g.sort();
+                        w.sort();
+                        if g != w {
+                            self.violation.get_or_insert(format!("address-union :: extended dial handed the transport {calls:?}, expected explicit + every field's addresses {want:?}"));
+                        }
+                    }
                 }
             }
             Act::Drain => {
@@ -787,6 +954,9 @@ impl Sys {
             Which::C02 => self.check_c02(),
             Which::C05 => Ok(()),
             Which::C06 => self.check_c06(false).and_then(|_| self.check_c02()),
+            Which::C52 => self.check_c52(),
+            Which::C53 | Which::C53A => Ok(()),
+            Which::C58 => self.check_c58(false),
         }
     }
     /// oracles that are only meaningful when nothing is runnable
@@ -794,8 +964,146 @@ impl Sys {
         match self.cfg.which {
             Which::C05 => self.check_c05(),
             Which::C06 => self.check_c06(true),
+            Which::C53 | Which::C53A => self.check_c53(),
+            Which::C58 => self.check_c58(true).and_then(|_| self.check_c06(true)),
             _ => Ok(()),
         }
+    }
+
+    fn check_c52(&mut self) -> Result<(), String> {
+        let l = crate::compose::limit_set(self.cfg.variant);
+        let byp = Some(crate::compose::BYPASSED);
+        let mut pin = 0u32;
+        let mut pout = 0u32;
+        for c in &self.conns {
+            if self.pending(c) {
+                if c.out {
+                    if c.expected != byp {
+                        pout += 1;
+                    }
+                } else {
+                    pin += 1;
+                }
+            }
+        }
+        let mut ein = 0u32;
+        let mut eout = 0u32;
+        let mut per: std::collections::BTreeMap<u8, u32> = Default::default();
+        for i in self.live() {
+            let c = &self.conns[i];
+            if c.peer == byp {
+                continue;
+            }
+            if c.out { eout += 1 } else { ein += 1 }
+            *per.entry(c.peer.unwrap_or(99)).or_default() += 1;
+        }
+        let got = [pin, pout, ein, eout, per.values().copied().max().unwrap_or(0), ein + eout];
+        let names = ["pending incoming", "pending outgoing", "established incoming", "established outgoing", "established per peer", "established total"];
+        for k in 0..6 {
+            if got[k] > l[k] {
+                return Err(format!("limit-exceeded {} :: {} non-bypassed connections, limit {} (limits {l:?}, counts {got:?})", names[k], got[k], l[k]));
+            }
+            if got[k] == l[k] {
+                self.limit_hit = true;
+            }
+        }
+        Ok(())
+    }
+
+    fn check_c53(&self) -> Result<(), String> {
+        for &p in &self.forbidden {
+            let live = self.live_of(p);
+            if !live.is_empty() {
+                return Err(format!("forbidden-peer-connected :: P{p} is forbidden but connections {live:?} are still established at quiescence"));
+            }
+        }
+        Ok(())
+    }
+
+    fn check_c58(&self, quiescent: bool) -> Result<(), String> {
+        let nf = B::fields();
+        // (1) every FromSwarm event reaches every field, in the same order
+        let proj = |f: u8| -> Vec<String> {
+            self.full_log
+                .iter()
+                .filter_map(|e| match e {
+                    LogEv::Established { f: x, cid, other_established, .. } if *x == f => Some(format!("Est({cid},{other_established})")),
+                    LogEv::Closed { f: x, cid, remaining, .. } if *x == f => Some(format!("Closed({cid},{remaining})")),
+                    LogEv::DialFailure { f: x, cid, error, .. } if *x == f => Some(format!("DialFailure({cid},{error})")),
+                    LogEv::ListenFailure { f: x, cid, error, .. } if *x == f => Some(format!("ListenFailure({cid},{error})")),
+                    LogEv::Other { f: x, what } if *x == f && !what.starts_with("emit ") => Some(what.clone()),
+                    _ => None,
+                })
+                .collect()
+        };
+        let p0 = proj(0);
+        for f in 1..nf {
+            let pf = proj(f);
+            // a FromSwarm event is delivered to all fields within one call, so the projections
+            // agree after every poll
+            if pf != p0 {
+                return Err(format!("forwarding :: field {f} saw {pf:?}, field 0 saw {p0:?}"));
+            }
+        }
+        // (2) handler events come back to the field whose handler emitted them, and behaviour
+        // events reach that field's handler on the right connection
+        for e in &self.full_log {
+            match e {
+                LogEv::HandlerGot { f, cid, n } => {
+                    let Some(&(_, wf, wc)) = self.notified.iter().find(|x| x.0 == *n) else {
+                        return Err(format!("phantom-handler-event :: handler of field {f} got {n} which nobody sent"));
+                    };
+                    if wf != *f || self.sys.cids.get(wc) != Some(cid) {
+                        return Err(format!("misrouted-to-handler :: event {n} sent by field {wf} to c{wc} reached the handler of field {f} on connection {cid}"));
+                    }
+                }
+                LogEv::FromHandler { f, cid, n, .. } => {
+                    let orig = n.wrapping_sub(1000);
+                    let Some(&(_, wf, wc)) = self.notified.iter().find(|x| x.0 == orig) else {
+                        return Err(format!("phantom-behaviour-event :: field {f} got handler event {n} which no handler emitted"));
+                    };
+                    if wf != *f || self.sys.cids.get(wc) != Some(cid) {
+                        return Err(format!("misrouted-to-behaviour :: handler event {n} of field {wf} on c{wc} was delivered to field {f} for connection {cid}"));
+                    }
+                }
+                _ => {}
+            }
+        }
+        if quiescent {
+            for (n, f, c) in &self.notified {
+                let closed = self.conns[*c].sw.iter().any(|s| s == "Closed");
+                let echoed = self.full_log.iter().any(|e| matches!(e, LogEv::FromHandler { n: m, .. } if *m == n + 1000));
+                if !echoed && !closed {
+                    return Err(format!("handler-event-lost :: event {n} of field {f} on live connection c{c} never came back"));
+                }
+            }
+        }
+        // (3) denial short-circuits: after a field denied, later fields are not asked, and no
+        // handler of that connection is ever polled
+        for (i, c) in self.conns.iter().enumerate() {
+            if !c.denied {
+                continue;
+            }
+            let cid = self.sys.cids[i];
+            let mut denied_by: Option<u8> = None;
+            for e in &self.full_log {
+                match e {
+                    LogEv::PendingIn { f, cid: x, denied } | LogEv::PendingOut { f, cid: x, denied, .. } | LogEv::EstIn { f, cid: x, denied, .. } | LogEv::EstOut { f, cid: x, denied, .. } if *x == cid => {
+                        if let Some(d) = denied_by {
+                            return Err(format!("asked-after-denial :: c{i}: field {d} denied, yet field {f} was still asked"));
+                        }
+                        if *denied {
+                            denied_by = Some(*f);
+                        }
+                    }
+                    LogEv::HandlerPolled { cid: x, f } | LogEv::HandlerGot { cid: x, f, .. } if *x == cid => {
+                        return Err(format!("denied-handler-used :: c{i}: a handler of field {f} was used although the connection was denied"));
+                    }
+                    _ => {}
+                }
+            }
+        }
+        Ok(())
     }
 
     fn mux_of(&self, c: usize) -> Option<Arc<Mutex<MuxState>>> {
@@ -810,7 +1118,10 @@ fn cfg_json(c: &LifeCfg) -> Value {
     serde_json::to_value(c).unwrap()
 }
 
-fn replay_case(case: &Value, out: &mut Outcome) {
+fn replay_case<B: Subject>(case: &Value, out: &mut Outcome)
+where
+    B::ToSwarm: std::fmt::Debug,
+{
     out.evaluations = 1;
     let cfg: LifeCfg = match serde_json::from_value(case["cfg"].clone()) {
         Ok(c) => c,
@@ -822,9 +1133,9 @@ fn replay_case(case: &Value, out: &mut Outcome) {
     let r = if case.get("choices").is_some() {
         let choices: Vec<u32> = serde_json::from_value(case["choices"].clone()).unwrap_or_default();
         let hist: Vec<Act> = serde_json::from_value(case["history"].clone()).unwrap_or_default();
-        choice::replay(&choices, |ch| iso(true, ch, || run_history(&cfg, &hist)))
+        choice::replay(&choices, |ch| iso(true, ch, || run_history::<B>(&cfg, &hist)))
     } else {
-        bfs::replay_history_iso(0, || Sys::new(cfg.clone()), case)
+        bfs::replay_history_iso(0, || Sys::<B>::new(cfg.clone()), case)
     };
     if let Err(m) = r {
         out.violation(bfs::signature_of(&m), m, case.clone());
@@ -834,11 +1145,14 @@ fn replay_case(case: &Value, out: &mut Outcome) {
 /// Run one history with the current chooser deciding the schedule. Default: run to quiescence
 /// between actions (exactly what the BFS does). Deviations: poll another runnable party than
 /// the default one, or apply the next action although the system is not quiescent yet.
-fn run_history(cfg: &LifeCfg, hist: &[Act]) -> Result<(), String> {
-    let guard = |s: &mut Sys, f: &mut dyn FnMut(&mut Sys) -> Result<(), String>| -> Result<(), String> {
+fn run_history<B: Subject>(cfg: &LifeCfg, hist: &[Act]) -> Result<(), String>
+where
+    B::ToSwarm: std::fmt::Debug,
+{
+    let guard = |s: &mut Sys<B>, f: &mut dyn FnMut(&mut Sys<B>) -> Result<(), String>| -> Result<(), String> {
         mc::catch(|| f(s)).unwrap_or_else(|p| Err(format!("panic at {} :: {p}", mc::shim::last_panic_loc().unwrap_or_default())))
     };
-    let mut s = Sys::new(cfg.clone());
+    let mut s = Sys::<B>::new(cfg.clone());
     let mut next = 0;
     let mut steps = 0u64;
     loop {
@@ -902,20 +1216,26 @@ fn iso(isolate: bool, ch: &mut choice::Chooser, f: impl FnOnce() -> Result<(), S
     }
 }
 
-fn explore_cfg(ctx: &Ctx, cfg: &LifeCfg, depth: usize, cap: u64, out: &mut Outcome) {
+fn explore_cfg<B: Subject>(ctx: &Ctx, cfg: &LifeCfg, depth: usize, cap: u64, out: &mut Outcome)
+where
+    B::ToSwarm: std::fmt::Debug,
+{
     let cj = cfg_json(cfg);
     // With the harness executor every scheduling decision is the explorer's, and connection ids
     // are reset per execution, so executions are reproducible in one thread (checked by the
     // determinism self-test). `without_executor` polls tasks through FuturesUnordered in an order
     // that follows hash-map iteration: those configurations run as isolated executions.
-    let (st, viols) = if cfg.local_exec { bfs::bfs_replay_iso(0, || Sys::new(cfg.clone()), depth.saturating_sub(1).max(2), cap) } else { bfs::bfs_replay(|| Sys::new(cfg.clone()), depth, cap) };
+    let (st, viols) = if cfg.local_exec { bfs::bfs_replay_iso(0, || Sys::<B>::new(cfg.clone()), depth.saturating_sub(1).max(2), cap) } else { bfs::bfs_replay(|| Sys::<B>::new(cfg.clone()), depth, cap) };
     bfs::record(out, &cj, &st, &viols);
     out.count("bfs_configs", 1);
     let _ = ctx;
 }
 
 /// E1 part: schedule deviations over all short histories of the reduced alphabet
-fn schedules(cfg0: &LifeCfg, hist_len: usize, bound: u32, out: &mut Outcome, ctx: &Ctx, stripe: &mut u64) {
+fn schedules<B: Subject>(cfg0: &LifeCfg, hist_len: usize, bound: u32, out: &mut Outcome, ctx: &Ctx, stripe: &mut u64)
+where
+    B::ToSwarm: std::fmt::Debug,
+{
     let mut cfg = cfg0.clone();
     cfg.reduced = true;
     cfg.explore_schedule = false;
@@ -924,7 +1244,7 @@ fn schedules(cfg0: &LifeCfg, hist_len: usize, bound: u32, out: &mut Outcome, ctx
     let mut stack: Vec<Vec<Act>> = vec![vec![]];
     while let Some(h) = stack.pop() {
         let body = || {
-            let mut s = Sys::new(cfg.clone());
+            let mut s = Sys::<B>::new(cfg.clone());
             for a in &h {
                 if s.step(a).is_err() {
                     return None;
@@ -955,7 +1275,7 @@ fn schedules(cfg0: &LifeCfg, hist_len: usize, bound: u32, out: &mut Outcome, ctx
         if !ctx.mine(*stripe) {
             continue;
         }
-        let (st, viol) = choice::explore(bound, 200_000, |ch| iso(cfg.local_exec, ch, || run_history(&cfg, &h)));
+        let (st, viol) = choice::explore(bound, 200_000, |ch| iso(cfg.local_exec, ch, || run_history::<B>(&cfg, &h)));
         out.add_explore(&st);
         out.count("schedule_histories", 1);
         out.count("schedule_distinct_observations", st.distinct_obs);
@@ -975,14 +1295,17 @@ fn schedules(cfg0: &LifeCfg, hist_len: usize, bound: u32, out: &mut Outcome, ctx
     }
 }
 
-fn base(which: Which) -> LifeCfg {
-    LifeCfg { which, deny: DenyMask::default(), max_conns: 3, local_exec: false, reduced: false, explore_schedule: false, pre_established: 0 }
+pub fn base(which: Which) -> LifeCfg {
+    LifeCfg { which, deny: DenyMask::default(), max_conns: 3, local_exec: false, reduced: false, explore_schedule: false, pre_established: 0, variant: 0 }
 }
 
-fn run_generic(ctx: &Ctx, which: Which, cfgs: Vec<LifeCfg>, depth: usize, sched: (usize, u32)) -> Outcome {
+pub fn run_generic<B: Subject>(ctx: &Ctx, which: Which, cfgs: Vec<LifeCfg>, depth: usize, sched: (usize, u32)) -> Outcome
+where
+    B::ToSwarm: std::fmt::Debug,
+{
     if let Some(case) = &ctx.replay {
         let mut out = Outcome::default();
-        replay_case(case, &mut out);
+        replay_case::<B>(case, &mut out);
         return out;
     }
     let n = cfgs.len();
@@ -992,12 +1315,12 @@ fn run_generic(ctx: &Ctx, which: Which, cfgs: Vec<LifeCfg>, depth: usize, sched:
         for (i, cfg) in cfgs.iter().enumerate() {
             // BFS of one configuration is sequential: stripe configurations over workers
             if ctx.mine(i as u64) {
-                explore_cfg(ctx, cfg, depth, 4_000_000, &mut out);
+                explore_cfg::<B>(ctx, cfg, depth, 4_000_000, &mut out);
             }
             // `without_executor` executions are isolated (fresh thread each): in the quick tier they
             // get the BFS only, the schedule exploration runs on the harness-executor configurations
             if !(cfg.local_exec && ctx.quick()) {
-                schedules(cfg, sched.0, sched.1, &mut out, ctx, &mut stripe);
+                schedules::<B>(cfg, sched.0, sched.1, &mut out, ctx, &mut stripe);
             }
         }
         out
@@ -1008,7 +1331,7 @@ fn run_generic(ctx: &Ctx, which: Which, cfgs: Vec<LifeCfg>, depth: usize, sched:
 
 /// both executor modes, from the initial state and from states with 1 and 2 connections to P1
 /// already established (max_conns grows accordingly so that three more ids can be created)
-fn two_execs(c: LifeCfg) -> Vec<LifeCfg> {
+pub fn two_execs(c: LifeCfg) -> Vec<LifeCfg> {
     let mut v = Vec::new();
     for pre in 0..3u8 {
         let mut h = c.clone();
@@ -1026,15 +1349,15 @@ fn two_execs(c: LifeCfg) -> Vec<LifeCfg> {
 
 pub fn run_c01(ctx: &Ctx) -> Outcome {
     let cfgs = two_execs(base(Which::C01));
-    run_generic(ctx, Which::C01, cfgs, ctx.tier.pick(4, 5), (ctx.tier.pick(3, 4), ctx.tier.pick(1, 2)))
+    run_generic::<Probe>(ctx, Which::C01, cfgs, ctx.tier.pick(4, 5), (ctx.tier.pick(3, 4), ctx.tier.pick(1, 2)))
 }
 pub fn run_c02(ctx: &Ctx) -> Outcome {
     let cfgs = two_execs(base(Which::C02));
-    run_generic(ctx, Which::C02, cfgs, ctx.tier.pick(4, 5), (ctx.tier.pick(3, 4), ctx.tier.pick(1, 2)))
+    run_generic::<Probe>(ctx, Which::C02, cfgs, ctx.tier.pick(4, 5), (ctx.tier.pick(3, 4), ctx.tier.pick(1, 2)))
 }
 pub fn run_c05(ctx: &Ctx) -> Outcome {
     let cfgs = two_execs(base(Which::C05));
-    run_generic(ctx, Which::C05, cfgs, ctx.tier.pick(4, 5), (ctx.tier.pick(3, 4), ctx.tier.pick(1, 2)))
+    run_generic::<Probe>(ctx, Which::C05, cfgs, ctx.tier.pick(4, 5), (ctx.tier.pick(3, 4), ctx.tier.pick(1, 2)))
 }
 pub fn run_c06(ctx: &Ctx) -> Outcome {
     let mut cfgs = Vec::new();
@@ -1051,5 +1374,109 @@ pub fn run_c06(ctx: &Ctx) -> Outcome {
         }
     }
     let _ = pname;
-    run_generic(ctx, Which::C06, cfgs, ctx.tier.pick(3, 4), (ctx.tier.pick(2, 3), 1))
+    run_generic::<Probe>(ctx, Which::C06, cfgs, ctx.tier.pick(3, 4), (ctx.tier.pick(2, 3), 1))
+}
+
+
+// ---------------------------------------------------------------------------------------------
+// composed subjects
+
+pub const META_C52: Meta = Meta {
+    level: "model_checking",
+    rule: "lifecycle exploration (as C01, <=4 connection ids, start states with 0/1 established connection) of a Swarm whose behaviour is #[derive]d from connection_limits::Behaviour (3 limit sets with every limit 1 or 2, P2 bypassed) and a probe; BFS + schedule exploration. Non-trivial = states in which some counter sits exactly at its limit.",
+    explanation: "Oracle after every Swarm poll: reference counts (from the SwarmEvent history) of non-bypassed pending in/out, established in/out, per-peer and total never exceed the configured limits.",
+    assumptions: ASSUME,
+};
+pub const META_C53: Meta = Meta {
+    level: "model_checking",
+    rule: "lifecycle exploration (as C01) plus forbid/permit actions on a Swarm whose behaviour is #[derive]d from allow_block_list::Behaviour<BlockedPeers> resp. <AllowedPeers> and a probe; BFS + schedule exploration in which list changes race with connection establishment. Non-trivial = states reached after at least one list change.",
+    explanation: "Oracle: the probe (asked after the list) never sees an established / pending-outbound decision for a peer that is forbidden at that moment; at every quiescent point no connection to a forbidden peer is established (connections that existed when the peer became forbidden were closed).",
+    assumptions: ASSUME,
+};
+pub const META_C58: Meta = Meta {
+    level: "model_checking",
+    rule: "lifecycle exploration (as C01) plus Notify(field, connection) and extended-dial actions on Swarms whose behaviour is #[derive]d from 2 and 3 probes, under deny masks placed on each field and decision point; BFS + schedule exploration. Non-trivial = states with a notification, a denial or any forwarded event.",
+    explanation: "Oracle: every FromSwarm event reaches every field once and in the same order; a behaviour event reaches the handler of the emitting field on the addressed connection and the handler's reply returns to that field; a connection is denied iff some field denies, fields after the denier are not asked and no handler of a denied connection is used; an extended dial hands the transport the explicit address plus every field's addresses.",
+    assumptions: ASSUME,
+};
+
+pub fn run_c52(ctx: &Ctx) -> Outcome {
+    let mut cfgs = Vec::new();
+    for variant in 0..3u8 {
+        for pre in 0..2u8 {
+            let mut c = base(Which::C52);
+            c.variant = variant;
+            c.max_conns = 4;
+            c.pre_established = pre;
+            cfgs.push(c);
+        }
+    }
+    let mut o = run_generic::<crate::compose::Limited>(ctx, Which::C52, cfgs, ctx.tier.pick(4, 5), (ctx.tier.pick(3, 4), ctx.tier.pick(1, 2)));
+    if ctx.replay.is_none() && o.get("nontrivial_states") == 0 {
+        o.machinery("vacuity: no state ever reached a limit");
+    }
+    o
+}
+pub fn run_c53(ctx: &Ctx) -> Outcome {
+    if let Some(case) = &ctx.replay {
+        // dispatch on the recorded configuration
+        let allow = case["cfg"]["which"] == "C53A";
+        return if allow { run_generic::<crate::compose::Allowing>(ctx, Which::C53A, vec![], 0, (0, 0)) } else { run_generic::<crate::compose::Blocking>(ctx, Which::C53, vec![], 0, (0, 0)) };
+    }
+    let mk = |w: Which| {
+        let mut v = Vec::new();
+        for pre in 0..3u8 {
+            let mut c = base(w);
+            c.pre_established = pre;
+            c.max_conns = 3 + pre as usize - (pre > 0) as usize;
+            v.push(c);
+        }
+        v
+    };
+    let d = ctx.tier.pick(4, 5);
+    let sch = (ctx.tier.pick(3, 4), ctx.tier.pick(1, 2));
+    let mut o = run_generic::<crate::compose::Blocking>(ctx, Which::C53, mk(Which::C53), d, sch);
+    o.merge(run_generic::<crate::compose::Allowing>(ctx, Which::C53A, mk(Which::C53A), d, sch));
+    o
+}
+pub fn run_c58(ctx: &Ctx) -> Outcome {
+    if let Some(case) = &ctx.replay {
+        let three = case["cfg"]["max_conns"] == 13; // marker for the three-field subject (see below)
+        return if three { run_generic::<crate::compose::Three>(ctx, Which::C58, vec![], 0, (0, 0)) } else { run_generic::<crate::compose::Two>(ctx, Which::C58, vec![], 0, (0, 0)) };
+    }
+    let mk = |fields: u8| {
+        let mut v = Vec::new();
+        // no denial, then each decision point denied by each field
+        let mut plain = base(Which::C58);
+        plain.pre_established = 1;
+        plain.max_conns = 3;
+        v.push(plain.clone());
+        let mut p0 = base(Which::C58);
+        p0.max_conns = 2;
+        v.push(p0);
+        for f in 0..fields {
+            for slot in 0..4 {
+                for d in [Deny::Always, Deny::Even] {
+                    let mut c = base(Which::C58);
+                    c.variant = f;
+                    c.max_conns = 2;
+                    match slot {
+                        0 => c.deny.pending_in = d,
+                        1 => c.deny.pending_out = d,
+                        2 => c.deny.est_in = d,
+                        _ => c.deny.est_out = d,
+                    }
+                    v.push(c);
+                }
+            }
+        }
+        v
+    };
+    let d = ctx.tier.pick(3, 4);
+    let sch = (ctx.tier.pick(2, 3), 1);
+    let mut o = run_generic::<crate::compose::Two>(ctx, Which::C58, mk(2), d, sch);
+    // the three-field subject is marked by max_conns + 10 so that a replay file identifies it
+    let three: Vec<LifeCfg> = mk(3).into_iter().map(|mut c| { c.max_conns += 10; c }).collect();
+    o.merge(run_generic::<crate::compose::Three>(ctx, Which::C58, three, d, sch));
+    o
 }
